@@ -4,7 +4,7 @@
    that loses it (operator flipped the wrong way, off-by-one in `half`, swapped box bound) breaks the proof. *)
 From Coq Require Import ZArith List Bool Lia Arith PeanoNat.
 Import ListNotations.
-Require Import MV.C11.Ext MV.C11.Gen.
+Require Import MV.C11.Ext MV.C11.Heap MV.C11.Gen MV.C11.ProofsHeap.
 Open Scope Z_scope.
 
 (* ---------------------------------------------------------------- order on ext *)
@@ -195,3 +195,35 @@ Proof.
   unfold rad_keep.
   first [ apply Z.leb_le | (rewrite Z.geb_leb; apply Z.leb_le) ].
 Qed.
+
+(* ---------------------------------------------------------------- PriorityItem / PriorityQueue (priority_queue.py) *)
+(* the comparator is a strict weak order that compares priorities: what the heap contract of ProofsHeap.v needs *)
+Lemma item_lt_ok : lt_ok item_lt.
+Proof.
+  constructor; unfold item_lt; intros;
+  repeat match goal with
+         | H : context [ Z.ltb ?a ?b ] |- _ => destruct (Z.ltb_spec a b)
+         | |- context [ Z.ltb ?a ?b ] => destruct (Z.ltb_spec a b)
+         end; simpl in *; try discriminate; try reflexivity; lia.
+Qed.
+
+(* `not (a < b)` means b's priority is at most a's: the popped item has a smallest priority *)
+Lemma item_lt_false a b : item_lt a b = false -> fst b <= fst a.
+Proof.
+  unfold item_lt. intros H.
+  repeat match goal with
+         | H : context [ Z.ltb ?a ?b ] |- _ => destruct (Z.ltb_spec a b)
+         end; simpl in *; try discriminate; lia.
+Qed.
+
+Lemma pq_push_eq d x w : pq_push d x w = heappush item item_lt item_dummy d (w, x).
+Proof. reflexivity. Qed.
+
+Lemma pq_pop_eq d : pq_pop d = heappop item item_lt item_dummy d.
+Proof. reflexivity. Qed.
+
+Lemma pq_empty_false d : pq_empty d = false -> d <> [].
+Proof. intros H E. subst d. vm_compute in H. discriminate. Qed.
+
+Lemma pq_front_cons d : d <> [] -> pq_front d = Some (nth 0 d item_dummy).
+Proof. destruct d; [congruence|reflexivity]. Qed.
